@@ -33,7 +33,7 @@ AllCrl == [
     e2  |-> {C("C.1", "good", "CA2", 1, 9, {}), C("C.2", "good", "CA2", 2, 9, {"M1"}), C("C.fail", "fail", "-", 0, 0, {})},
     eX  |-> {C("X.fail", "fail", "-", 0, 0, {})} ]
 D(id, kind, ban) == [id |-> id, kind |-> kind, ban |-> ban]
-AllDl == {D("d0", "good", {}), D("d1", "good", {"L1"}), D("dca", "good", {"CA1"}), D("dbad", "badsig", {}), D("dfail", "fail", {})}
+AllDl == {D("d0", "good", {}), D("d1", "good", {"L1"}), D("dca", "good", {"CA1"}), D("d12", "good", {"L1", "L2"}), D("dbad", "badsig", {}), D("dfail", "fail", {})}
 
 \* the chains callers validate (leaf .. root); "x" = leaf only (connection manager, TLS offloading), "x3" = full chain
 ChainOf(id) == CASE id = "L1" -> <<"L1">> [] id = "L13" -> <<"L1", "CA1", "R">> [] id = "L2" -> <<"L2">> [] id = "L23" -> <<"L2", "CA1", "R">>
